@@ -19,6 +19,7 @@ def ops : List (String × (Json → R Json)) :=
    ("fault", Df.Ops.opFault),
    ("linearize", Df.Ops.opLinearize),
    ("streamfx", Df.Ops.opStreamFx),
+   ("unstream", Df.Ops.opUnstream),
    ("dumpfx", Df.Ops.opDumpFx),
    ("hist", Df.Ops.opHist),
    ("plan", Df.Ops.opPlan),
@@ -28,6 +29,7 @@ def ops : List (String × (Json → R Json)) :=
    ("numkey", Df.Ops.opNumKey),
    ("sort", Df.Ops.opSort),
    ("join", Df.Ops.opJoin),
+   ("joinschema", Df.Ops.opJoinSchema),
    ("hdr", Df.Ops.opHdr),
    ("wrap", Df.Ops.opWrap),
    ("dumpstats", Df.Ops.opDumpStats),
